@@ -53,8 +53,11 @@ def check_case(case, rec):
     try:
         sidecar = Sidecar(io.StringIO(json.dumps(b["sidecar"])))
         side_before = copy.deepcopy(sidecar.loaded_dict)
-        if form in ("frame", "frame-labels"):
+        if form in ("frame", "frame-labels", "frame-objects"):
             src = pd.DataFrame(b["rows"], columns=b["columns"])
+            if form == "frame-objects":
+                # cells that are numbers, not text (an object column mixing numbers and 'n/a')
+                src = src.astype(object).apply(lambda col: col.map(lambda c: int(c) if isinstance(c, str) and c.isdigit() else c))
             if form == "frame-labels":
                 lab = [3 * i + 7 for i in range(len(src))]
                 src.index = lab[len(lab) // 2:] + lab[:len(lab) // 2]
@@ -128,6 +131,21 @@ def check_case(case, rec):
     rec.mon("sidecar-unchanged")
     if side_before != side_after:
         rec.violation("assembly changed the sidecar", case)
+    # one object, first used with another sidecar (the same without references), then switched to this one
+    if refs and form == "frame":
+        import re as _re
+        rec.mon("sidecar-switched")
+        try:
+            plain = json.loads(_re.sub(r"\{[a-z_\-0-9]+\}", "Zzq-noref", json.dumps(b["sidecar"]), flags=_re.I))
+            t2 = TabularInput(pd.DataFrame(b["rows"], columns=b["columns"]), Sidecar(io.StringIO(json.dumps(plain))))
+            list(t2.series_a)
+            t2.reset_column_mapper(Sidecar(io.StringIO(json.dumps(b["sidecar"]))))
+            switched = list(t2.series_a)
+        except Exception as ex:  # noqa
+            rec.violation(f"switching the sidecar of a table raised {type(ex).__name__}", case)
+            switched = None
+        if switched is not None and [hedparse.canon_text(x) for x in switched] != [hedparse.canon_text(x) for x in s1]:
+            rec.violation("a table whose sidecar was switched assembles differently from a fresh table with that sidecar", case)
 
 
 def check_sheet(case, rec):
@@ -254,7 +272,7 @@ def run_shard(shard, rec):
             continue
         bearing = [c for c in b["columns"] if c == "HED" or b["kinds"].get(c) in ("categorical", "value")]
         nontriv = len(bearing) >= 2 or bool(tables.refs_of(b))
-        for form in ("frame", "tsv") + (("frame-labels",) if k % 4 == 0 else ()):
+        for form in ("frame", "tsv") + (("frame-labels",) if k % 4 == 0 else ()) + (("frame-objects",) if k % 4 == 1 else ()):
             case = dict(bundle=b, form=form)
             rec.case((json.dumps(b, sort_keys=True), form), nontriv)
             check_case(case, rec)
